@@ -311,7 +311,7 @@ def run(pid, tier, seed):
                 annotated = set()
                 steps = programs.make_workload(chk.rng, funcs, chk.rng.randrange(3, 12), vals=rv)
             else:
-                src0, funcs0 = programs.gen_module(chk.rng, name)
+                src0, funcs0 = programs.gen_module(chk.rng, name, with_async_gen=True)
                 src, funcs, maps, annotated = programs.uniquify_params(src0, funcs0, chk.rng, 0.12)
                 steps = programs.make_workload(chk.rng, funcs, chk.rng.randrange(200, 320) if quick else chk.rng.randrange(250, 600), vals=rv)
             mod, path = pd.load(name, src)
